@@ -214,10 +214,30 @@ fn setmax_child(v: u64) {
     println!("{} {} {}", before, after, after2);
 }
 
+/// child process: publish `w` through one collector, then replace it by a collector publishing `v`
+fn setmax2_child(w: u64, v: u64) {
+    let before = rank_of_filter(&LevelFilter::current());
+    let d1 = tracing_core::Dispatch::new(Hinted(Some(filter(w))));
+    let mid = rank_of_filter(&LevelFilter::current());
+    drop(d1);
+    let d2 = tracing_core::Dispatch::new(Hinted(Some(filter(v))));
+    let after = rank_of_filter(&LevelFilter::current());
+    let after2 = rank_of_filter(&tracing::level_filters::LevelFilter::current());
+    drop(d2);
+    // `mid` must be w; fold that into the report: a wrong intermediate value makes the line inconsistent
+    println!("{} {} {}", before, after, if mid == w { after2 } else { 77 });
+}
+
 fn eval_setmax(c: &Value) -> Value {
     let v = c["v"].as_u64().unwrap();
     let exe = std::env::current_exe().unwrap();
-    let out = std::process::Command::new(exe).arg("setmax").arg(v.to_string()).output().unwrap();
+    let mut cmd = std::process::Command::new(exe);
+    if c["k"] == "setmax2" {
+        cmd.arg("setmax2").arg(c["w"].as_u64().unwrap().to_string()).arg(v.to_string());
+    } else {
+        cmd.arg("setmax").arg(v.to_string());
+    }
+    let out = cmd.output().unwrap();
     let s = String::from_utf8_lossy(&out.stdout);
     let f: Vec<u64> = s.split_whitespace().filter_map(|x| x.parse().ok()).collect();
     if !out.status.success() || f.len() != 3 {
@@ -235,6 +255,10 @@ fn main() {
         setmax_child(args[2].parse().unwrap());
         return;
     }
+    if args.len() == 4 && args[1] == "setmax2" {
+        setmax2_child(args[2].parse().unwrap(), args[3].parse().unwrap());
+        return;
+    }
     vh_common::quiet_panics();
     let out = vh_common::TraceOut::from_env();
     for line in vh_common::read_input() {
@@ -244,7 +268,7 @@ fn main() {
             "parse" => eval_parse(c),
             "print" => eval_print(c),
             "conv" => eval_conv(c),
-            "setmax" => eval_setmax(c),
+            "setmax" | "setmax2" => eval_setmax(c),
             k => panic!("kind {k}"),
         })
         .unwrap_or_else(|_| if c["k"] == "print" { json!(["!"]) } else { json!(-2) });
